@@ -52,6 +52,7 @@ type Spec struct {
 	Focus       string            `json:"focus,omitempty"`
 	DelayClass  string            `json:"delay,omitempty"`
 	Faults      string            `json:"faults,omitempty"`
+	Wake        int               `json:"wake,omitempty"`
 }
 
 type Violation struct {
